@@ -63,7 +63,9 @@ fn main() -> ExitCode {
         Some("determinism") => cmd_determinism(&args[2..]),
         Some("digest") => cmd_digest(&args[2..]),
         Some("plan") => cmd_plan(&args[2..]),
-        Some("miri-batch") => cmd_miri_batch(&args[2..]),
+        Some("merge-evidence") => cmd_merge_evidence(&args[2..]),
+        Some("miri-pack") => cmd_miri_pack(&args[2..]),
+        Some("miri-exec") => cmd_miri_exec(&args[2..]),
         _ => Err("usage: rosu-sim check <ID> <quick|thorough> | replay <file> | determinism [ID…] | plan <ID> <tier> <idx>".into()),
     };
     transport::cleanup_tmp();
@@ -375,29 +377,129 @@ fn cmd_determinism(a: &[String]) -> Result<u8, String> {
 
 // ------------------------------------------------------------------------------------------------ miri
 
-/// `miri-batch <ID> <from> <to>`: execute plans single-threaded, without supervisor, watchdog or files — meant to be
-/// run under `cargo +nightly miri run` so the same simulated runs execute on a machine that checks for UB.
-fn cmd_miri_batch(a: &[String]) -> Result<u8, String> {
-    let id = a.first().ok_or("id")?;
-    let from: u64 = a.get(1).ok_or("from")?.parse().map_err(|_| "from")?;
-    let to: u64 = a.get(2).ok_or("to")?.parse().map_err(|_| "to")?;
-    let seed: u64 = a.get(3).and_then(|s| s.parse().ok()).unwrap_or(DEFAULT_SEED);
-    let sc = scenario(id)?;
-    let mut st = Stats::default();
-    let mut bad = 0;
-    for idx in from..to {
-        let plan = sc.plan(seed, idx, Tier::Quick);
-        if plan.data.len() > 1500 {
+/// `miri-pack <n> <out-dir> <parts>`: choose n small C01 plans that reach the three `unsafe` blocks (lossy UTF-8
+/// path, slider path splitting, custom sample banks) and write them as `parts` JSON packs for `miri-exec`.
+fn cmd_miri_pack(a: &[String]) -> Result<u8, String> {
+    let n: usize = a.first().ok_or("n")?.parse().map_err(|_| "n")?;
+    let dir = a.get(1).ok_or("dir")?;
+    let parts: usize = a.get(2).and_then(|s| s.parse().ok()).unwrap_or(16);
+    let sc = scenario("C01")?;
+    let seed = seed_from_env();
+    std::fs::create_dir_all(dir).map_err(|e| e.to_string())?;
+    let total = sc.total_runs(Tier::Quick);
+    let mut chosen: Vec<J> = Vec::new();
+    let (mut lossy, mut slider, mut bank, mut other) = (0, 0, 0, 0);
+    let mut idx = total.saturating_sub(250_000); // seeded part
+    while chosen.len() < n && idx < total {
+        let mut p = sc.plan(seed, idx, Tier::Quick);
+        idx += 1;
+        if p.data.len() > 700 || p.data.is_empty() {
             continue;
         }
-        println!("MIRI-RUN {id} idx={idx} len={}", plan.data.len());
+        let text = String::from_utf8_lossy(&p.data);
+        let is_lossy = std::str::from_utf8(&p.data).is_err() && !p.data.starts_with(&[0xFF, 0xFE]) && !p.data.starts_with(&[0xFE, 0xFF]);
+        let is_slider = text.contains("[HitObjects]") && text.contains('|');
+        let is_bank = text.contains("[HitObjects]") && text.lines().any(|l| l.matches(':').count() >= 3);
+        let quota = n / 4 + 1;
+        let take = if is_lossy && lossy < quota {
+            lossy += 1;
+            true
+        } else if is_slider && slider < quota {
+            slider += 1;
+            true
+        } else if is_bank && bank < quota {
+            bank += 1;
+            true
+        } else if other < quota {
+            other += 1;
+            true
+        } else {
+            false
+        };
+        if take {
+            // Beatmap, Events, TimingPoints, HitObjects: the decoders on whose paths the unsafe blocks sit
+            p.set("decs", 0b1_1010_0001);
+            chosen.push(p.to_json());
+        }
+    }
+    let per = chosen.len().div_ceil(parts.max(1)).max(1);
+    for (k, c) in chosen.chunks(per).enumerate() {
+        std::fs::write(format!("{dir}/pack-{k}.json"), J::Arr(c.to_vec()).to_string_pretty()).map_err(|e| e.to_string())?;
+    }
+    println!("miri-pack: {} plans ({lossy} lossy-utf8, {slider} slider-path, {bank} sample-bank, {other} other) in {} packs under {dir}", chosen.len(), chosen.len().div_ceil(per));
+    Ok(0)
+}
+
+/// `miri-exec <pack.json>`: execute the plans of a pack single-threaded, without corpus, supervisor, watchdog or
+/// threads — run under `cargo +nightly miri run`, i.e. the same simulated runs on a machine that checks for UB.
+fn cmd_miri_exec(a: &[String]) -> Result<u8, String> {
+    let path = a.first().ok_or("pack")?;
+    let src = std::fs::read_to_string(path).map_err(|e| format!("{path}: {e}"))?;
+    let j = json::parse(&src)?;
+    let sc = props::make_exec_only("C01").ok_or("C01")?;
+    let mut st = Stats::default();
+    let mut bad = 0;
+    let mut n = 0;
+    for pj in j.as_arr().ok_or("pack is not an array")? {
+        let plan = plan::Plan::from_json(pj)?;
+        n += 1;
+        println!("MIRI-RUN idx={} len={}", plan.idx, plan.data.len());
         if let Err(v) = sc.execute(&plan, &mut st) {
-            println!("CLASS {} idx={idx}: {}", v.class, v.detail);
+            println!("MIRI-VIOLATION idx={} class={}: {}", plan.idx, v.class, v.detail);
             bad += 1;
         }
     }
-    println!("miri-batch {id} {from}..{to}: done, {bad} violations");
+    println!("MIRI-EXEC-DONE plans={n} violations={bad}");
     Ok(u8::from(bad > 0))
+}
+
+/// `merge-evidence C01 [key=value…]`: fold the tracing-build evidence (evidence/C01.tracing.json) and the Miri
+/// summary into evidence/C01.json, so one file describes every configuration the check ran.
+fn cmd_merge_evidence(a: &[String]) -> Result<u8, String> {
+    let id = a.first().ok_or("id")?;
+    let dir = format!("{}/evidence", engine::verif_dir());
+    let main_p = format!("{dir}/{id}.json");
+    let mut ev = json::parse(&std::fs::read_to_string(&main_p).map_err(|e| format!("{main_p}: {e}"))?)?;
+    let mut cfgs = J::obj();
+    let tr_p = format!("{dir}/{id}.tracing.json");
+    let mut extra_viol = 0i64;
+    if let Ok(s) = std::fs::read_to_string(&tr_p) {
+        let t = json::parse(&s)?;
+        let c = t.get("coverage").cloned().unwrap_or(J::obj());
+        let mut o = J::obj();
+        for k in ["evaluations", "distinct_nontrivial", "batch_digest", "tracing_events_formatted", "tracing_bytes_formatted", "runs_per_hour", "raw_violating_runs"] {
+            if let Some(v) = c.get(k) {
+                o.set(k, v.clone());
+            }
+        }
+        o.set("wall_s", t.get("wall_s").cloned().unwrap_or(J::Null));
+        o.set("violations", t.get("violations").cloned().unwrap_or(J::Int(0)));
+        extra_viol += t.get("violations").and_then(J::as_i64).unwrap_or(0);
+        let same = c.get("batch_digest") == ev.get("coverage").and_then(|c| c.get("batch_digest"));
+        o.set("same_batch_digest_as_default_build", J::Bool(same));
+        cfgs.set("tracing-feature-with-formatting-subscriber", o);
+    }
+    let mut miri = J::obj();
+    for kv in &a[1..] {
+        if let Some((k, v)) = kv.split_once('=') {
+            miri.set(k, v.parse::<i64>().map(J::Int).unwrap_or_else(|_| J::str(v)));
+        }
+    }
+    if let J::Obj(m) = &miri {
+        if !m.is_empty() {
+            extra_viol += miri.get("violations").and_then(J::as_i64).unwrap_or(0);
+            cfgs.set("miri-reexecution-of-plan-sample", miri);
+        }
+    }
+    if let Some(J::Obj(c)) = ev.get("coverage").cloned().as_ref() {
+        let mut c2 = J::Obj(c.clone());
+        c2.set("configurations", cfgs);
+        ev.set("coverage", c2);
+    }
+    let v0 = ev.get("violations").and_then(J::as_i64).unwrap_or(0);
+    ev.set("violations", J::Int(v0 + extra_viol));
+    std::fs::write(&main_p, ev.to_string_pretty()).map_err(|e| e.to_string())?;
+    Ok(0)
 }
 
 // ------------------------------------------------------------------------------------------------ evidence
